@@ -233,7 +233,7 @@ def compare_case(ui: UnitInfo, rule: str, inp: str, obs: dict, counters: dict):
             cnt("inconclusive_watchdog")
         elif res[0] == "panic":
             if "step budget exhausted" in res[2]:
-                F.append(Finding("fuel", "logical step budget exhausted (mode %s): the parse does not terminate within 200x the reference steps" % m, observed=res[2]))
+                F.append(Finding("fuel", "logical step budget exhausted (mode %s): the parse does not terminate within the step budget derived from the reference evaluation (or its event log outgrew the cap)" % m, observed=res[2]))
             else:
                 F.append(Finding("panic", "panic in mode %s at %s: %s" % (m, res[1], res[2]), observed=res[1] + ": " + res[2]))
     usable = {m: r for m, r in recs.items() if r["result"] is not None and r["result"][0] in ("ok", "err")}
